@@ -7,7 +7,7 @@
    eventually sends; the implementation sees it in TCP segments, and the correspondence (props/C01.py, real server, random
    segmentation) checks that the outcome is the same. *)
 From Coq Require Import List NArith ZArith Bool.
-From LV Require Import Base.Bytes Gen.GenBurl Gen.GenH1 Url.UrlModel H1.H1Model Resp.RespModel.
+From LV Require Import Base.Bytes Gen.GenBurl Gen.GenH1 Gen.GenSafe Url.UrlModel H1.H1Model Resp.RespModel.
 Import ListNotations.
 Local Open Scope N_scope.
 
@@ -33,7 +33,7 @@ Fixpoint line_nonul (s : list N) (acc_rev : list N) : option (list N * list N) :
   | c :: t => if c =? 0 then None else if c =? 10 then Some (rev (c :: acc_rev), t) else line_nonul t (c :: acc_rev)
   end.
 
-Definition CHUNK_MAX : N := 2 ^ 59 - 3.          (* (off_t)(1uLL<<(8*sizeof(off_t)-5))-1-2 *)
+Definition CHUNK_MAX : N := Z.to_N chunk_guard_client.          (* (off_t)(1uLL<<(8*sizeof(off_t)-5))-1-2, re-read from h1.c (Gen/GenSafe.v) *)
 Fixpoint hexacc (ds : list N) (acc : N) : option N :=
   match ds with [] => Some acc | d :: t => if CHUNK_MAX <? acc then None else hexacc t (acc * 16 + d) end.
 
@@ -55,7 +55,7 @@ Definition is_nil_b (l : list N) : bool := match l with [] => true | _ => false 
 Fixpoint dechunk_req (fuel : nat) (maxf : N) (s acc_rev : list N) : chunk_res :=
   match fuel with O => ChInc | S f =>
   match line_nonul s [] with
-  | None => if is_nil_b s then ChInc else if 1024 <=? N.of_nat (length s) then ChBad 400 else ChInc
+  | None => if is_nil_b s then ChInc else if CHUNK_LINE_MAX <=? N.of_nat (length s) then ChBad 400 else ChInc
   | Some (line, rest) =>
       let '(ds, after) := span_hex line in
       match hexacc ds 0 with
@@ -66,13 +66,13 @@ Fixpoint dechunk_req (fuel : nat) (maxf : N) (s acc_rev : list N) : chunk_res :=
           else if negb (list_eqb after [13; 10])
                   && negb (let a := skip_bws after in
                            list_eqb a [13; 10] || (match a with c :: _ => c =? 59 | [] => false end && negb (memb13 (removelast (removelast a))))) then ChBad 400
-          else if 1024 <=? N.of_nat (length line) then ChBad 400
+          else if CHUNK_LINE_MAX <=? N.of_nat (length line) then ChBad 400
           else if te =? 0 then
             if prefixb CRLF rest then ChDone (rev acc_rev) (skipn 2 rest) true false
             else
                 match find_crlfcrlf (CRLF ++ rest) O with
-                | Some k => ChDone (rev acc_rev) (skipn (k - 2) rest) (negb (maxf <? N.of_nat (length line + k - 2))) false
-                | None => if maxf <=? N.of_nat (length line + length rest) then ChDone (rev acc_rev) [] false false else ChInc
+                | Some k => ChDone (rev acc_rev) (skipn (k - 2) rest) (negb (trailer_found_over_limit_clears_keepalive && (maxf <? N.of_nat (length line + k - 2)))) false
+                | None => if maxf <=? N.of_nat (length line + length rest) then ChDone (rev acc_rev) [] (negb trailer_cut_clears_keepalive) false else ChInc
                 end
           else
             let avail := N.of_nat (length rest) in
@@ -99,8 +99,8 @@ Fixpoint conn (fuel : nat) (flags maxf : N) (first : bool) (s : list N) : list e
   | c0 :: _ =>
       match head_extent (split_lines s []) O O with
       | None => if maxf <? N.of_nat (length s) then [EvReject 431 431]
-                else if negb first && list_eqb s [13] then [EvIncomplete]       (* first half of the blank line after the previous request *)
-                else if c0 <? 32 then [EvReject 400 400] else [EvIncomplete]
+                else if lone_cr_after_request_waits && negb first && list_eqb s [13] then [EvIncomplete]       (* first half of the blank line after the previous request *)
+                else if c0 <? FIRST_BYTE_MIN then [EvReject 400 400] else [EvIncomplete]
       | Some (hlen, nlines) =>
           if maxf <? N.of_nat hlen then [EvReject 431 431]
           else if Nat.eqb nlines O then
@@ -112,7 +112,7 @@ Fixpoint conn (fuel : nat) (flags maxf : N) (first : bool) (s : list N) : list e
                  end
           else
             match h1_parse flags (firstn hlen s) with
-            | H1Rej st => [EvReject st (if c0 <? 32 then 400 else st)]
+            | H1Rej st => [EvReject st (if c0 <? FIRST_BYTE_MIN then 400 else st)]
             | H1Oracle => [EvOracle]
             | H1Inc | H1Blank => [EvIncomplete]
             | H1Ok o =>
